@@ -64,7 +64,7 @@ package loader
 // writes no string list that existed before the call; every list it fills comes from the YAML decoder)
 //@ func LoadFiles
 //@   props C15 C05
-//@   requires filesNonNil(files)
+//@   requires [caller=LoadFiles] filesNonNil(files)
 //@   ensures [raw-keeps-every-file-byte-for-byte] result1 == nil ==> result0 != nil && len(result0.Raw) == len(files) && (forall j int :: 0 <= j && j < len(files) ==> result0.Raw[j] != nil && result0.Raw[j].Name == old(files[j].Name) && result0.Raw[j].Data == old(files[j].Data))
 //@   ensures [templates-are-files-under-templates] result1 == nil ==> templatesSound(result0)
 //@   marks forall l []string, i int :: !fresh(l) ==> l[i] == old(l[i])
@@ -93,3 +93,11 @@ package loader
 //@   props C05
 //@   trusted
 //@   marks forall l []string, i int :: !fresh(l) ==> l[i] == old(l[i])
+
+// (LoadFiles' precondition "no nil file" binds its recursive call only: LoadDir collects the files in a
+// callback of the directory walk, outside what is modelled; the callback appends &BufferedFile{…} only)
+// ---- C15: a chart directory is loaded under the rules of its .helmignore whenever that file exists —
+// whatever kind of directory entry it is (a symbolic link to a shared ignore file included)
+//@ func LoadDir
+//@   props C15
+//@   assert [an-existing-ignore-file-is-always-parsed] at "rules.AddDefaults()" fexists(ifile) ==> GignoreParsed[ifile]
